@@ -117,9 +117,30 @@ def check(facts, rep, tier, cfg):
             rep.ok("C16.R2", "after-tick-in-loop", where, "check performed after each tick, inside the loop")
         else:
             rep.bad("C16.R2", "after-tick-in-loop", where, "the timeout check is not performed after every interval tick inside the ping loop")
-        # interval source
-        for tk in ticks:
-            pass
+        # freshness: both samples of the predicate (last pong, now) are taken after the last suspension before the check
+        yields = set(bi for bi in range(len(b.blocks)) if b.term(bi)["k"] == "Yield" and not b.blocks[bi]["cleanup"])
+        samples = []
+        pn = strip_casts(g.pred)
+        for x in walk(pn):
+            if x.kind == "call" and x[6] == "now":
+                samples.append(("now", x[4]))
+            if x.kind == "call" and x[6] == "lock" and any(y.kind == "field" and y[2] == "last_pong_timestamp" for y in walk(x[3][0])):
+                samples.append(("last_pong_timestamp", x[4]))
+        stale = []
+        for what, sb in samples:
+            for y in yields:
+                if any(y in b.reachable_from(s0, cut={gb}) for s0 in b.succ[sb]) and gb in b.reachable_from(y, cut={sb}):
+                    stale.append((what, sb, y))
+        if len(set(w for w, _ in samples)) < 2:
+            rep.bad("C16.R2", "fresh-samples", where, "could not locate both samples (now, last_pong_timestamp.lock()) of the timeout predicate")
+        elif stale:
+            what, sb, y = stale[0]
+            rep.bad("C16.R2", "fresh-samples", "%s (%s)" % (loc_str(b.term(sb)["loc"]), b.path),
+                    "`%s` is sampled before an await (%s) that precedes the timeout check: the check compares a value from before "
+                    "the sleep, so a peer that answered during the interval is judged by its previous Pong (live peer cut off when "
+                    "timeout < 2 x interval)" % (what, loc_str(b.term(y)["loc"])))
+        else:
+            rep.ok("C16.R2", "fresh-samples", where, "now and last_pong_timestamp are both read between the last await and the check")
         iv = [t for _, t in b.calls() if callee(t) and callee(t)["name"] == "from" and "OptionalInterval" in callee(t)["path"]]
         if iv and any(x.kind == "field" and x[2] == "keepalive_interval" for x in walk(tr.operand(iv[0]["args"][0]))):
             rep.ok("C16.R2", "interval-source", where, "interval <- keepalive_interval")
